@@ -248,6 +248,217 @@ def u_write(c):
     c.oblige("post/flush-attempted-once", len(hw) == 1)
 
 
+def _data_kinds():
+    import array
+    return {
+        "bytes": lambda: b"abcdefgh",
+        "bytearray": lambda: bytearray(b"abcdefgh"),
+        "memoryview-of-bytes": lambda: memoryview(b"abcdefgh"),
+        "memoryview-itemsize-4": lambda: memoryview(array.array("I", [1, 2, 3])),          # 3 items, 12 bytes
+        "memoryview-itemsize-2": lambda: memoryview(array.array("H", [7, 8, 9, 10, 11])),  # 5 items, 10 bytes
+        "memoryview-itemsize-8-slice": lambda: memoryview(array.array("d", [1.0, 2.0, 3.0]))[1:],   # 2 items, 16 bytes
+        "memoryview-2d": lambda: memoryview(bytes(range(12))).cast("B", shape=[3, 4]),        # len() == 3, 12 bytes
+        "empty-bytes": lambda: b"",
+        "empty-memoryview": lambda: memoryview(b""),
+    }
+
+
+@unit("C12", "BaseIOStream.write.data-kinds", [(M, "BaseIOStream.write")],
+      bounded="finite case analysis: 9 kinds of buffer object (bytes, bytearray, memoryviews of item size 1/2/4/8, multi-dimensional, empty) x 3 amounts already buffered x 5 limits "
+              "around the byte size, on the real write() with the real _StreamBuffer")
+def u_write_kinds(c):
+    """the byte-string units take `data` as an abstract byte string; this one fixes what that string is for every kind of object write() accepts: its bytes
+    (nbytes of them, whatever len() says), for the limit, the buffer and the index its future waits for"""
+    import tornado.iostream as IO
+    kind = c.choose("data", list(_data_kinds()))
+    pre = c.choose("already-buffered", [0, 5, 40])
+    data = _data_kinds()[kind]()
+    raw = bytes(data) if not isinstance(data, memoryview) else data.tobytes()
+    n = len(raw)
+    limit = c.choose("max_write_buffer_size", ["none", "bytes-1", "bytes", "items", "bytes+1"])
+    s = IO.BaseIOStream.__new__(IO.BaseIOStream)
+    s._write_buffer = IO._StreamBuffer()
+    if pre:
+        s._write_buffer.append(b"p" * pre)
+    s._total_write_index, s._total_write_done_index = 100 + pre, 100
+    s._write_futures = __import__("collections").deque()
+    s._closed, s._connecting, s.error, s._state = False, False, None, None
+    s.max_write_buffer_size = {"none": None, "bytes-1": pre + n - 1, "bytes": pre + n, "items": pre + len(data), "bytes+1": pre + n + 1}[limit]
+    if s.max_write_buffer_size is not None and s.max_write_buffer_size < 0:
+        s.max_write_buffer_size = 0
+    hw = []
+    s.fileno = lambda: 7
+    s._add_io_state = lambda st_: None
+    s._maybe_add_error_listener = lambda: None
+
+    class L:
+        READ, WRITE, ERROR = 1, 4, 24
+    s.io_loop = L()
+    with c.patched((IO.BaseIOStream, "_handle_write", lambda self_: hw.append(1)), (IO, "Future", H.new_future if c.symbolic else (lambda: H.heap(c).new()))):
+        out = c.call(c.fn(M, "BaseIOStream.write"), s, data)
+    c.only_raises(out, (IO.StreamBufferFullError,))
+    over = n > 0 and s.max_write_buffer_size is not None and pre + n > s.max_write_buffer_size
+    c.oblige("limit/refused-exactly-when-the-bytes-would-exceed-it", out.raised == over)
+    buffered = len(s._write_buffer)
+    content = bytes(s._write_buffer.peek(buffered)) if buffered else b""      # one peek may stop at an internal buffer boundary: collect all
+    if buffered and len(content) < buffered:
+        sb, content = s._write_buffer, b""
+        import copy
+        sb2 = IO._StreamBuffer()
+        sb2._buffers, sb2._first_pos, sb2._size = copy.copy(sb._buffers), sb._first_pos, sb._size
+        while len(sb2):
+            piece = bytes(sb2.peek(len(sb2)))
+            content += piece
+            sb2.advance(len(piece))
+    if out.raised:
+        c.oblige("frame/refused-write-has-no-side-effects", buffered == pre and s._total_write_index == 100 + pre and len(s._write_futures) == 0 and not hw, kind="frame")
+        return
+    c.oblige("post/exactly-its-bytes-buffered-in-order", buffered == pre + n and content == b"p" * pre + raw)
+    c.oblige("post/total-index-advanced-by-the-byte-count", s._total_write_index == 100 + pre + n)
+    c.oblige("post/future-waits-for-the-last-byte-of-this-write", len(s._write_futures) == 1 and s._write_futures[0][0] == 100 + pre + n and s._write_futures[0][1] is out.value)
+    c.oblige("post/flush-attempted-once", len(hw) == 1)
+
+
+# ---------------------------------------------------------------------------------- _StreamBuffer itself (bounded number of internal buffers, unbounded data)
+class SB:
+    """one internal buffer of _StreamBuffer (a bytearray or a memoryview) as an abstract byte string"""
+    def __init__(self, view):
+        self.view = view
+
+    def __pyvc_len__(self):
+        return SInt(z3.Length(self.view.t)) if isinstance(self.view, SStr) else len(self.view)
+
+    def __len__(self):
+        return len(self.view)
+
+    def __iadd__(self, data):
+        self.view = self.view + (data if isinstance(data, SStr) else bytes(data))
+        return self
+
+    def __getitem__(self, k):                  # a memoryview is sliced directly
+        assert isinstance(k, slice) and k.step is None
+        return self.view[k]
+
+    def __pyvc_memoryview__(self):             # a bytearray is sliced through memoryview(b)
+        return self
+
+    def __delitem__(self, k):
+        assert isinstance(k, slice) and k.start is None and k.step is None
+        self.view = self.view[k.stop:]
+
+
+def _blen(b):
+    return b.__pyvc_len__() if isinstance(b, SB) else (SInt(z3.Length(b.t)) if isinstance(b, SStr) else len(b))
+
+
+def sb_view(sb):
+    out = None
+    for i, (flag, b) in enumerate(sb._buffers):
+        v = b.view if isinstance(b, SB) else (b if isinstance(b, SStr) else bytes(b))
+        if i == 0:
+            v = v[sb._first_pos:]
+        out = v if out is None else out + v
+    return out if out is not None else b""
+
+
+@unit("C12", "_StreamBuffer.append+peek+advance", [(M, "_StreamBuffer.append"), (M, "_StreamBuffer.peek"), (M, "_StreamBuffer.advance")], tiers=("thorough",),
+      bounded="at most 1 internal buffer before the operation (its content, the position in it and all sizes symbolic and unbounded)")
+def u_streambuffer(c):
+    _streambuffer_body(c, [0, 1])
+
+
+@unit("C12", "_StreamBuffer.two-buffers", [(M, "_StreamBuffer.append"), (M, "_StreamBuffer.peek"), (M, "_StreamBuffer.advance")], tiers=("thorough",),
+      bounded="exactly 2 internal buffers before the operation (contents, position and sizes symbolic and unbounded)")
+def u_streambuffer2(c):
+    _streambuffer_body(c, [2])
+
+
+@unit("C12", "_StreamBuffer.three-buffers", [(M, "_StreamBuffer.append"), (M, "_StreamBuffer.peek"), (M, "_StreamBuffer.advance")], tiers=("thorough",),
+      bounded="exactly 3 internal buffers before the operation (contents, position and sizes symbolic and unbounded)")
+def u_streambuffer3(c):
+    _streambuffer_body(c, [3])
+
+
+def _streambuffer_body(c, ks):
+    """the contract the write-side proof assumes of _StreamBuffer, checked on the real class: view = concatenation of the internal buffers from the current position;
+    append: view' = view ++ data; peek(n): a non-empty prefix of the view of at most n bytes (empty only for an empty buffer); advance(n): view' = view[n:]; len() == len(view) throughout"""
+    import collections
+    import tornado.iostream as IO
+    if not c.symbolic:
+        c.cover("streambuffer/concrete-runs-are-the-stand-in's")
+        c.oblige("post/(the unmodified _StreamBuffer is exercised on real buffers by the stand-in)", True)
+        return
+    c.fresh_feasibility = True
+    c.direct_queries = True
+    k = c.choose("internal-buffers", ks)
+    sb = IO._StreamBuffer.__new__(IO._StreamBuffer)
+    bufs = []
+    for i in range(k):
+        flag = c.choose("buffer-%d-is-a-memoryview" % i, [False, True])
+        v = c.bytes("buf%d" % i)
+        c.assume_z3(z3.Length(v.t) >= 1)                    # invariant: no exhausted buffer is kept
+        bufs.append((flag, SB(v)))
+    sb._buffers = collections.deque(bufs)
+    fp = c.int("first_pos")
+    if k:
+        c.assume((fp >= 0) & (fp < bufs[0][1].__pyvc_len__()))
+    else:
+        c.assume(fp == 0)
+    sb._first_pos = fp
+    view0 = sb_view(sb)
+    n0 = SInt(z3.Length(view0.t)) if isinstance(view0, SStr) else len(view0)
+    sb._size = n0
+    op = c.choose("operation", ["append", "peek", "advance"])
+    c.bytearray_factory = lambda data=b"": SB(data if isinstance(data, SStr) else bytes(data))
+    try:
+        if op == "append":
+            data = c.bytes("data")
+            out = c.call(c.fn(M, "_StreamBuffer.append"), sb, data)
+            c.only_raises(out, ())
+            c.cover("streambuffer/append")
+            v1 = sb_view(sb)
+            c.oblige("post/append: view' == view ++ data", v1 == view0 + data)
+            c.oblige("post/append: len() tracks the view", sb._size == n0 + SInt(z3.Length(data.t)))
+            b0 = sb._buffers[0][1] if len(sb._buffers) else None
+            n_after = SInt(z3.Length(v1.t)) if isinstance(v1, SStr) else len(v1)
+            c.oblige("post/append: the position stays inside the first buffer",
+                     (And(sb._first_pos >= 0, Or(sb._first_pos < _blen(b0), n_after == 0)) if b0 is not None else sb._first_pos == 0))
+        elif op == "peek":
+            size = c.int("size")
+            c.assume(size > 0)
+            out = c.call(c.fn(M, "_StreamBuffer.peek"), sb, size)
+            c.only_raises(out, ())
+            c.cover("streambuffer/peek")
+            if out.returned:
+                r = out.value
+                if isinstance(r, memoryview):
+                    r = bytes(r)
+                rl = SInt(z3.Length(r.t)) if isinstance(r, SStr) else len(r)
+                c.oblige("post/peek: a prefix of the view", (view0[0:rl] == r) if not isinstance(view0, bytes) else (r == b""))
+                c.oblige("post/peek: at most `size` bytes, and at least one unless the buffer is empty", And(rl <= size, Implies(n0 > 0, rl >= 1)) if isinstance(rl, SInt) else (rl == 0 and k == 0))
+            c.oblige("frame/peek: nothing changes", And(sb._size == n0, sb_view(sb) == view0) if k else (len(sb._buffers) == 0), kind="frame")
+        else:
+            n = c.int("n")
+            c.assume((n > 0) & (n <= n0))
+            out = c.call(c.fn(M, "_StreamBuffer.advance"), sb, n)
+            c.only_raises(out, ())
+            c.cover("streambuffer/advance")
+            if out.returned:
+                v1 = sb_view(sb)
+                c.oblige("post/advance: view' == view[n:]", v1 == view0[n:])
+                c.oblige("post/advance: len() tracks the view", sb._size == n0 - n)
+                inv_ok = True
+                if len(sb._buffers):
+                    b0 = sb._buffers[0][1]
+                    inv_ok = And(sb._first_pos >= 0, sb._first_pos < _blen(b0))
+                else:
+                    inv_ok = sb._first_pos == 0
+                c.oblige("post/advance: the position stays inside the first buffer and no exhausted buffer is kept", inv_ok)
+    finally:
+        c.bytearray_factory = None
+
+
+
 def standin(tier, seed):
     """(a) real _StreamBuffer vs its contract on enumerated append/peek/advance programs with sizes around
     the 2048-byte threshold; (b) write programs through the real BaseIOStream over a scripted transport with
